@@ -78,6 +78,9 @@ func c14Push(c *core.Ctx) {
 	midReject, clipped := false, false
 	for b, nb := 0, r.Range(1, 5); b < nb; b++ {
 		n := r.Range(1, 6)
+		if r.Chance(1, 15) {
+			n = r.Range(30, 90) // one very long batch: "stops the batch" means the whole batch, however it is chunked
+		}
 		batch := make([]any, n)
 		for i := range batch {
 			if r.Chance(1, 12) {
@@ -344,6 +347,25 @@ func c14Closures(c *core.Ctx) {
 		} else if (eerr != nil) != (twin.IsEqual(other) != nil) {
 			c.Violatef("equality-not-restored", desc(), "IsEqual()=%v, built-in gives %v", eerr, twin.IsEqual(other))
 			return
+		} else {
+			// the ARGUMENT's closure is the argument's business: a receiver without a closure compares by the built-in
+			// rule, whatever the comparand carries (an equal comparand with a vetoing closure, a different one with an
+			// approving closure)
+			armedCalls := 0
+			vetoing := build().SetEqualityPolicy(func(any, any) error { armedCalls++; return eErr })
+			approving := build().Push("one more").SetEqualityPolicy(func(any, any) error { armedCalls++; return nil })
+			plainDifferent := build().Push("one more")
+			// bring both to the receiver's current length (Marshal steps above may have grown it)
+			for vetoing.Len() < s.Len() {
+				vetoing.Marshal("AND", "x")
+			}
+			e1, e2 := s.IsEqual(vetoing), s.IsEqual(approving)
+			w1, w2 := s.IsEqual(other), s.IsEqual(plainDifferent)
+			if (e1 != nil) != (w1 != nil) || (e2 != nil) != (w2 != nil) || armedCalls != 0 {
+				c.Violatef("equality-closure-of-the-argument-used", desc(), "receiver without an equality closure: IsEqual(equal comparand with vetoing closure)=%v (plain equal comparand: %v), IsEqual(different comparand with approving closure)=%v (plain: %v), the arguments' closures were called %d times", e1, w1, e2, w2, armedCalls)
+				return
+			}
+			c.Count("argument-with-own-equality-closure")
 		}
 		u, uerr := s.Unmarshal()
 		if installed.um {
